@@ -10,7 +10,7 @@
 import glob, json, os, shutil, subprocess, sys, time
 
 VERIF = '/verif'
-MUT = '/tmp/mutenv'
+MUT = os.environ.get('VERIF_MUTENV', '/tmp/mutenv')
 
 
 def sh(cmd, cwd=None, env=None, timeout=3600):
